@@ -456,8 +456,10 @@ def _exec(ctx, case):
         big = np.argsort(gaps)[::-1][:6]
         radii = np.sort([float(dist[g] + gaps[g] / 2) for g in big if gaps[g] > 1e-3 * rmax])
         if len(radii):
+            # (one object is read before and after the move, another one only after it)
+            sh_read = Sholl(t0)
+            before = np.array(sh_read.get(steps=radii))
             sh = Sholl(t0)
-            before = np.array(sh.get(steps=radii))
             shift = np.float32(rmax) * np.array([2.0, -1.0, 0.5], dtype=np.float32)
             t0.ndata["x"] += shift[0]
             t0.ndata["y"] = t0.ndata["y"] + shift[1]
@@ -465,8 +467,10 @@ def _exec(ctx, case):
                 t0.node(i_).z = float(t0.node(i_).z + shift[2])
             after = np.array(sh.get(steps=radii))
             fresh = np.array(Sholl(t0).get(steps=radii))
+            again = np.array(sh_read.get(steps=radii))
             ctx.count("sholl_objects_read_after_an_in_place_move")
-            if not (np.array_equal(before, after) and np.array_equal(before, fresh)):
+            if not (np.array_equal(before, after) and np.array_equal(before, fresh)
+                    and np.array_equal(before, again)):
                 raise Mismatch("sholl-after-in-place-translation",
                                f"Sholl profile at radii {np.round(radii, 4).tolist()}: "
                                f"{before.tolist()} before the neuron was translated in place, "
